@@ -38,7 +38,7 @@ func NewDense(n int, edges []byte) *DenseGraph {
 		}
 	}
 
-	return &DenseGraph{NumberOfVertices: n, NumberOfEdges: m, DegreeSequence: degrees, Edges: edges}
+	return &DenseGraph{NumberOfVertices: n, NumberOfEdges: m, DegreeSequence: degrees, Edges: copyOfEdges}
 }
 
 //N returns the number of vertices in the graph.
